@@ -70,6 +70,7 @@ SHAPES = [
     ("typename", "{ __typename o { __typename x } a }", ["Query.o", "Obj.x", "Query.a"]),
     # root type with exactly one field, selected repeatedly through aliases (schema-shape shortcuts)
     ("single-root", "{ p: o { x } q: o(id: 2) { x o { x } } }", ["Query.o", "Obj.x", "Obj.o"], "single"),
+    ("empty-list", "{ el { x } a nums }", ["Query.el", "Query.a", "Query.nums"]),
     ("scalar-list", "{ nums a w }", ["Query.nums", "Query.a", "Query.w"]),
     # a response key selected directly and again inside a later fragment, another key in between
     ("dup-in-fragment", "{ a ...F w } fragment F on Query { b a o { x } }", ["Query.a", "Query.b", "Query.w", "Obj.x"]),
